@@ -2,6 +2,7 @@
 // instrumented build; the MPI functions pika polls (MPI_Test, MPI_Testany, MPI_Testsome, ...) are
 // mocked in this executable: a mock request stays pending until the explorer answers "complete".
 #include "rt_common.h"
+#include <malloc.h>
 #include <pika/mpi.hpp>
 #include <mpi.h>
 #include <cstring>
@@ -21,7 +22,18 @@ struct MockReq
 };
 static MockReq g_reqs[48];
 static int g_nreq = 0;
-static int g_pending_answers = 0;    // "still pending" answers given so far (each costs one deviation)
+static int g_pending_answers = 0;
+// "slow MPI call": the next g_slow_calls test calls stay inside MPI for a while (the calling thread yields a
+// few times); g_in_test tells the harness that the polling thread is inside such a call right now
+static int g_slow_calls = 0, g_in_test = 0;
+static void slow_call()
+{
+    if (g_slow_calls <= 0) return;
+    --g_slow_calls;
+    g_in_test = 1;
+    for (int i = 0; i < 3; ++i) sched_yield();
+    g_in_test = 0;
+}    // "still pending" answers given so far (each costs one deviation)
 static bool is_mock(MPI_Request r) { for (int i = 0; i < g_nreq; ++i) if ((void*) r == (void*) &g_reqs[i]) return true; return false; }
 static MPI_Request mock_start(int* buffer, int value)
 {
@@ -67,14 +79,19 @@ int MPI_Test(MPI_Request* req, int* flag, MPI_Status*)
     else *flag = 0;
     return MPI_SUCCESS;
 }
+// An MPI call takes time: the polling thread can be pre-empted inside it (a scheduling point at its entry).
+// If the request array is modified or re-allocated meanwhile (it must not be: pika either polls under its
+// lock or from the only thread that owns the array), the mock sees values that are no requests; freed
+// memory is filled with a pattern (M_PERTURB) so that this shows up deterministically.
 int MPI_Testany(int count, MPI_Request reqs[], int* index, int* flag, MPI_Status*)
 {
+    if (count > 0) { pmc_point("MPI_Testany"); slow_call(); }
     bool any_active = false;
     for (int i = 0; i < count; ++i)
     {
         if (reqs[i] == MPI_REQUEST_NULL) continue;
         any_active = true;
-        if (!is_mock(reqs[i])) pmc_fail("harness", "MPI_Testany on an unknown request");
+        if (!is_mock(reqs[i])) pmc_fail("request-array-corrupted", "MPI_Testany: entry %d of %d in the request array is not a request (the array was modified or freed while it was being polled)", i, count);
         if (mock_poll((MockReq*) reqs[i])) { reqs[i] = MPI_REQUEST_NULL; *index = i; *flag = 1; return MPI_SUCCESS; }
     }
     *flag = any_active ? 0 : 1;
@@ -83,13 +100,14 @@ int MPI_Testany(int count, MPI_Request reqs[], int* index, int* flag, MPI_Status
 }
 int MPI_Testsome(int incount, MPI_Request reqs[], int* outcount, int indices[], MPI_Status*)
 {
+    if (incount > 0) { pmc_point("MPI_Testsome"); slow_call(); }
     bool any_active = false;
     int n = 0;
     for (int i = 0; i < incount; ++i)
     {
         if (reqs[i] == MPI_REQUEST_NULL) continue;
         any_active = true;
-        if (!is_mock(reqs[i])) pmc_fail("harness", "MPI_Testsome on an unknown request");
+        if (!is_mock(reqs[i])) pmc_fail("request-array-corrupted", "MPI_Testsome: entry %d of %d in the request array is not a request (the array was modified or freed while it was being polled)", i, incount);
         if (mock_poll((MockReq*) reqs[i])) { reqs[i] = MPI_REQUEST_NULL; indices[n++] = i; }
     }
     *outcount = any_active ? n : MPI_UNDEFINED;
@@ -110,7 +128,8 @@ static void on_stuck()
 }
 static const int modes_all[] = {0, 1, 2, 3, 4, 5, 6, 7, 8, 9, 10, 11, 12, 13, 14, 15, 16, 17, 18, 19, 20, 21, 22, 23, 24, 25, 26, 27, 28, 29, 30, 31};
 
-template <int NREQ, int POOL>
+static const int modes_pool_subset[] = {9, 13, 17, 21, 25, 29, 30, 10};    // request-inline modes with / without inline completion, the default, one more
+template <int NREQ, int POOL, int MODESET = 0>
 static void mpi_prog()
 {
     static St s;
@@ -118,7 +137,9 @@ static void mpi_prog()
     g = &s;
     g_nreq = 0;
     g_pending_answers = 0;
-    int mode = modes_all[pmc_choose(32, 0)];
+    g_slow_calls = MODESET ? 2 : 0;
+    g_in_test = 0;
+    int mode = MODESET ? modes_pool_subset[pmc_choose(8, 0)] : modes_all[pmc_choose(32, 0)];
     s.nreq = NREQ;
     static int buf[4];
     for (int i = 0; i < 4; ++i) buf[i] = -1;
@@ -134,7 +155,9 @@ static void mpi_prog()
         for (int i = 0; i < NREQ; ++i)
             rt::spawn([&, i] {
                 rt::watch_self(i ? "req1" : "req0");
-                auto snd = mpi::transform_mpi(ex::just(&buf[i], 100 + i), [](int* b, int v, MPI_Request* r) { *r = mock_start(b, v); return MPI_SUCCESS; });
+                // MODESET specs: the first poll (the eager test right after the call) finds the request pending
+                // at no cost, so that it is queued for the polling thread
+                auto snd = mpi::transform_mpi(ex::just(&buf[i], 100 + i), [](int* b, int v, MPI_Request* r) { *r = mock_start(b, v); if (MODESET) ((MockReq*) *r)->pending_polls = 1; return MPI_SUCCESS; });
                 rt::tt::sync_wait(std::move(snd) | ex::then([i]() {
                     ++g->signalled[i];
                     // find this request: requests are numbered in start order, buffers identify them
@@ -157,7 +180,7 @@ static void mpi_prog()
         PMC_ASSERT(s.ok_data[i] == 1, "data-not-visible", "received data not visible to the continuation of request %d (mode %d)", i, mode);
     }
     PMC_ASSERT(s.finished == NREQ, "task-lost", "%d of %d tasks finished", s.finished, NREQ);
-    pmc_outcome("mode=%d pending_answers=%d", mode, g_pending_answers);
+    pmc_outcome("mode=%d pending_answers=%d pool_enabled=%d", mode, g_pending_answers, (int) mpi::detail::get_pool_enabled());
 }
 
 // many outstanding requests: the first N-1 are held back by the harness until the last one has
@@ -269,21 +292,23 @@ int main(int argc, char** argv)
     static const char* sites = "mpi_polling|transform_mpi|mpi_helpers|global_activity_count";
     static const char* focus = "F-site: all atomics of async_mpi (polling request vector lock, in-flight counters, completion hand-off); data choices: every poll answer of the mock MPI (pending costs one deviation); F-addr: task state words";
     static const pmc_spec specs[] = {
-        {"one_request", mpi_prog<1, 0>, 1, 2, 0.35, 0.25, 1, focus, sites, nullptr},
-        {"one_request_polling_pool", mpi_prog<1, 1>, 1, 1, 0.25, 0.15, 1, focus, sites, nullptr},
+        {"one_request", mpi_prog<1, 0>, 1, 2, 0.25, 0.2, 1, focus, sites, nullptr},
+        {"one_request_polling_pool", mpi_prog<1, 1>, 1, 1, 0.2, 0.15, 1, focus, sites, nullptr},
         {"two_requests", mpi_prog<2, 0>, 1, 2, 0.2, 0.3, 1, focus, sites, nullptr},
+        {"two_requests_polling_pool", mpi_prog<2, 1, 1>, 1, 1, 0.3, 0.2, 1, "two requests with a dedicated polling pool (8 completion modes): one worker appends a request while the pool thread is inside an MPI test call", sites, nullptr},
         {"detached_request", detached_prog, 1, 2, 0.2, 0.2, 1, focus, sites, nullptr},
         {"many_requests_34", many_prog<34>, 0, 1, 0.1, 0.2, 0, "34 outstanding requests, the first 33 held back until the last one has completed (chunked testing of the polling vector)", sites, nullptr},
     };
     static const char* assumptions[] = {"sequentially consistent interleavings only", "MPI is mocked: requests created by the harness, MPI_Test/Testany/Testsome answered by the explorer; real OpenMPI timing is not exercised",
         "completion modes 0-31 (the MPIX continuation modes need an MPI extension that is not present)"};
+    mallopt(M_PERTURB, 0xA5);    // freed memory is overwritten: a re-allocated request array cannot look valid
     pmc_config cfg{};
     cfg.property_id = "C20";
     cfg.rule = "completion mode (all 32 flag combinations, data choice) x 1-2 outstanding requests (awaited by tasks, or detached with pika::wait as the only waiter) x polling pool on/off x every poll answer of the mock MPI (pending/complete) x all schedules within the deviation bound";
     cfg.assumptions = assumptions;
     cfg.n_assumptions = 3;
     cfg.warmup = rt::warmup;
-    cfg.quick_budget_s = 110;
+    cfg.quick_budget_s = 140;
     cfg.thorough_budget_s = 900;
     cfg.exec_timeout_s = 30;
     cfg.free_block_bound = 2;
